@@ -19,6 +19,8 @@ type Scenario struct {
 	Seed     []Action    // default schedule (S2/S3)
 	Asked    map[int]int // joiner key → validator asked (for AutoJoin)
 	Alphabet []Action    // S1 alphabet
+	// CountsPremise: the scenario has a step that decides whether the rest is inside the liveness premise
+	CountsPremise bool
 }
 
 // Exec is one execution in progress.
